@@ -61,6 +61,7 @@ type Obligation struct {
 	Goal     Term
 	Info     string // human-readable description (clause source etc.)
 	Negate   bool   // cover obligation: must NOT be provable
+	Cases    []Term // exit path conditions whose disjunction is PC: the goal may be proved exit by exit
 	vc       *VC
 	Trivial  bool
 	UsesSpec map[string]bool
@@ -93,6 +94,7 @@ type VC struct {
 	tableDone    bool
 	defs         map[string]string
 	lemmasUsed   map[string]bool
+	privateCells []privCell // cells of locals no callee can reach (kept across `modifies *`)
 	strProv      map[string]strProvenance // string constants created by string([]byte): their source bytes
 }
 
@@ -216,9 +218,95 @@ func (vc *VC) initialComp(name string, sort Sort) Term {
 		vc.compSorts[name] = sort
 		vc.Lines = append(vc.Lines, fmt.Sprintf("(declare-const %s %s)", c, sort))
 		vc.AssumeCompTyping(name, Term{c, sort})
+		if name != allocComp {
+			vc.assumeClosedHeap(name, Term{c, sort}, vc.initialComp(allocComp, SInt))
+		}
 	}
 	return Term{c, sort}
 }
+
+// assumeClosedHeap: the entry heap is closed - every reference stored in it (slice
+// backing arrays, pointers, maps) denotes something allocated at entry.
+func (vc *VC) assumeClosedHeap(name string, comp Term, alloc Term) {
+	var t types.Type
+	twoLevel := false
+	switch {
+	case strings.HasPrefix(name, "F!"):
+		rest := name[2:]
+		i := strings.LastIndex(rest, "!")
+		if i < 0 {
+			return
+		}
+		info := vc.W.Sorts.structs[rest[:i]]
+		if info == nil {
+			return
+		}
+		for _, f := range info.Fields {
+			if f.Name == rest[i+1:] {
+				t = f.Type
+			}
+		}
+	case strings.HasPrefix(name, "M!"):
+		t = compElemTypes[name]
+		twoLevel = true
+	}
+	if t == nil {
+		return
+	}
+	r := Term{"r!", SInt}
+	vars := []Term{r}
+	var v Term
+	if twoLevel {
+		j := Term{"j!", SInt}
+		vars = append(vars, j)
+		v = Sel(Sel(comp, r), j)
+	} else {
+		v = Sel(comp, r)
+	}
+	var facts []Term
+	var walk func(t types.Type, v Term, depth int)
+	walk = func(t types.Type, v Term, depth int) {
+		switch u := t.Underlying().(type) {
+		case *types.Slice:
+			facts = append(facts, Le(SArr(v), alloc))
+		case *types.Pointer, *types.Map:
+			facts = append(facts, Le(v, alloc))
+			if _, isPtr := u.(*types.Pointer); isPtr {
+				rv := App("root!", SInt, v)
+				facts = append(facts, Implies(Lt(v, IntLit(0)), And(Gt(rv, IntLit(0)), Le(rv, alloc))))
+			}
+		case *types.Struct:
+			if depth > 2 {
+				return
+			}
+			so := vc.W.Sorts.SortOf(t)
+			info := vc.W.Sorts.Struct(so)
+			if info == nil {
+				return
+			}
+			for i, fi := range info.Fields {
+				if fi.Ghost || fi.Type == nil || fi.Nested {
+					continue
+				}
+				walk(fi.Type, vc.W.Sorts.FieldOf(v, i), depth+1)
+			}
+			_ = u
+		}
+	}
+	walk(t, v, 0)
+	if len(facts) == 0 {
+		return
+	}
+	// only for addresses allocated at entry: the values at other addresses are the
+	// (arbitrary) initial contents of objects allocated later
+	root := App("root!", SInt, r)
+	allocd := And(Le(r, alloc), Implies(Lt(r, IntLit(0)), And(Gt(root, IntLit(0)), Le(root, alloc))))
+	// optional axiom (second solver round only: it costs quantifier instantiations that a
+	// few long proofs cannot afford, and most proofs do not need it)
+	vc.Lines = append(vc.Lines, optPrefix+"(assert "+Forall(vars, Implies(allocd, And(facts...)), []Term{v}).S+")")
+}
+
+const optPrefix = ";;OPT "
 
 // Fresh declares a new constant.
 func (vc *VC) Fresh(hint string, sort Sort) Term {
@@ -357,11 +445,33 @@ const basePrelude = `(set-option :produce-models true)
 
 // SMT renders the query for an obligation.
 func (o *Obligation) SMT() string {
-	text := o.smtBody()
+	text := o.smtBody(false)
 	return pruneDecls(o.vc.W, text)
 }
 
-func (o *Obligation) smtBody() string {
+// SMTOpt is the query with the optional axioms (closed entry heap) included;
+// HasOpt tells whether it differs from SMT.
+func (o *Obligation) SMTOpt() string {
+	return pruneDecls(o.vc.W, o.smtBody(true))
+}
+
+func (o *Obligation) HasOpt() bool {
+	for _, l := range o.vc.Lines[:o.Prefix] {
+		if strings.HasPrefix(l, optPrefix) {
+			return true
+		}
+	}
+	return false
+}
+
+// SMTCase is the query restricted to one exit of the function (case i of o.Cases).
+func (o *Obligation) SMTCase(i int) string {
+	text := o.smtBody(true)
+	text = strings.Replace(text, "(check-sat)\n", "(assert "+o.Cases[i].S+")\n(check-sat)\n", 1)
+	return pruneDecls(o.vc.W, text)
+}
+
+func (o *Obligation) smtBody(withOpt bool) string {
 	vc := o.vc
 	var sb strings.Builder
 	sb.WriteString(basePrelude)
@@ -395,6 +505,12 @@ func (o *Obligation) smtBody() string {
 	}
 	sb.WriteString(vc.implementsFactsCached())
 	for _, l := range vc.Lines[:o.Prefix] {
+		if strings.HasPrefix(l, optPrefix) {
+			if !withOpt {
+				continue
+			}
+			l = l[len(optPrefix):]
+		}
 		sb.WriteString(l)
 		sb.WriteByte('\n')
 	}
